@@ -6,13 +6,13 @@ TRUST = "trusted: Coq 8.16.1 kernel, tools/gen_tables.py, extraction (ExtrOcamlB
 CHECKS = {
  "C01": ("proof", "Coq theorems on the loader model (framing: termination, conservation of bytes, accepted => validated, message = announced prefix); the validator = specification-decoder half is decided by correspondence: implementation, extracted model and the extracted Coq specification decoder run on every generated case (structured valid messages, every single-byte corruption at every offset, hand-aimed boundary cases) incl. accessor dumps; partial: soundness/completeness against the spec decoder is not yet a theorem",
          "Coq proof (framing) + differential correspondence with an extracted specification decoder as oracle"),
- "C02": ("proof", "model of construction = abstract message (Wire.HeaderEdit.build) + the specification encoder; Coq theorems: the encoder/decoder ROUND TRIP at value and body level for every byte order, position and nesting (C02_value_roundtrip, C02_body_roundtrip: numbers, strings, arrays, structs, dict entries, variants), plus the abstract laws (signature field, byte-order conversion changes no value and is involutive, copy = equal message with serial 0); and at MESSAGE level (C02_roundtrip: spec decoder of the canonical serialisation of any well-formed abstract message = that message, either byte order, any field order); the DBusTypeWriter is tied to the encoder per generated program: implementation bytes = extracted spec encoder bytes, spec decoder accepts them with identical re-encoding, reparse dump identical, re-marshal byte-identical, other-byte-order encoding read back through the iterator; the two signature print/parse premises inside wf_msg are checked per message, not proved for all types",
+ "C02": ("proof", "model of construction = abstract message (Wire.HeaderEdit.build) + the specification encoder; Coq theorems: the encoder/decoder ROUND TRIP at value and body level for every byte order, position and nesting (C02_value_roundtrip, C02_body_roundtrip: numbers, strings, arrays, structs, dict entries, variants), plus the abstract laws (signature field, byte-order conversion changes no value and is involutive, copy = equal message with serial 0); and at MESSAGE level (C02_roundtrip: spec decoder of the canonical serialisation of any well-formed abstract message = that message, either byte order, any field order); the DBusTypeWriter is tied to the encoder per generated program: implementation bytes = extracted spec encoder bytes, spec decoder accepts them with identical re-encoding, reparse dump identical, re-marshal byte-identical, other-byte-order encoding read back through the iterator; the signature print/parse premises inside wf_msg are discharged for all well-formed types (C02_variant_wellformed, C16_signature_print_parse)",
          "Coq proof (abstract laws) + byte-exact differential against the extracted specification encoder/decoder"),
  "C12": ("proof", "Coq theorems on the abstract header editor (read-back, deletion, all other fields keep value/presence/relative order, strip removes exactly the unknown fields, flags/serial/type/signature/body untouched for every edit sequence) and on re-serialisation (C12_fields_reserialise: the encoded field array of any well-formed field list decodes back to exactly that list); the byte-level C code is tied to the model by comparing the serialised bytes after every edit on generated messages in both byte orders with shuffled and unknown fields; and C12_wellformed: the re-serialisation of any well-formed edited message decodes to exactly that message",
          "Coq proof (editor laws) + byte-exact differential after every edit"),
- "C11": ("proof", "Coq theorem: for every stream and every partition the produced messages and the corruption verdict equal those of the unsplit stream, proved from locality of load_message (hypothesis load_local, tied to the code by running every case chunked and unsplit); also: framing reads only the fixed header, nothing after corruption, conservation of bytes",
+ "C11": ("proof", "Coq theorem, unconditional (C11_chunking): for every stream and every partition the loader model produces the same messages and the same corruption verdict as for the unsplit stream; it rests on the proved locality of load_message on complete messages (C11_load_message_local, from locality lemmas for the whole body-validator model); also: framing reads only the fixed header, nothing after corruption, conservation of bytes; the C loader and the socket transport (handshake boundary) are tied by running every case chunked and unsplit",
          "Coq proof (induction over chunks with a stability lemma) + chunked/unsplit differential"),
- "C16": ("proof", "Coq theorems: the scanner models (character tables regenerated from the C macros) decide exactly the specification grammars for every byte string (interface, error name, member, path, well-known bus names; exact characterisation + refutation for unique names); signatures and UTF-8 by exhaustive small-alphabet correspondence against executable specifications; implementation tied to the model by ~1M enumerated cases",
+ "C16": ("proof", "Coq theorems: the scanner models (character tables regenerated from the C macros) decide exactly the specification grammars for every byte string (interface, error name, member, path, well-known bus names; exact characterisation + refutation for unique names); UTF-8: model = Unicode Table 3-7 without NUL for every byte string (C16_utf8); signatures: the automaton model accepts exactly the grammar's strings and equals the specification whenever the grammar's array-nesting limit holds (C16_signature; F11 refuted as the only difference), printer/parser inverse; implementation tied to the model by ~1M enumerated cases",
          "Coq proof (model = grammar) + generated tables + exhaustive small-scope correspondence"),
 }
 props = [json.loads(l) for l in open(os.path.join(V, "properties.jsonl"))]
